@@ -82,6 +82,21 @@ def run_live(name, broken="none"):
     return r
 
 
+def run_tlsready(framed, broken="none"):
+    """spec/XcmTlsReady.tla: the btls readiness decision tree (the operators bound to the code) under an abstract OpenSSL"""
+    d = vlib.BUILD + "/cfg"
+    os.makedirs(d, exist_ok=True)
+    path = "%s/tlsready_%s_%s_%d.cfg" % (d, framed, broken, os.getpid())
+    with open(path, "w") as f:
+        f.write("SPECIFICATION FairSpec\nCONSTANTS\n  HdrLen = 4\n  MaxMsg = 2\n  Framed = %s\n  Broken = \"%s\"\n"
+                "INVARIANTS NoLostWakeup\nPROPERTIES SendDone\nCHECK_DEADLOCK FALSE\n" % (framed, broken))
+    r = vlib.tlc("XcmTlsReady", path, workers=2, timeout=600, heap="2g", metadir="%s/tlsready.%s.%s.%d" % (vlib.TLCDIR, framed, broken, os.getpid()))
+    os.unlink(path)
+    if r["error"]:
+        raise InternalError("TLC failed on XcmTlsReady %s/%s:\n%s" % (framed, broken, r["error"]))
+    return r
+
+
 PROPS = {
     "C01": dict(mc=["tcp_oneway", "ux_oneway", "tcp_twoway"], paths=["tcp_oneway", "ux_oneway"],
                 tps=["tcp", "ux", "uxf", "tls", "utls", "utlst", "tcp", "ux"], raw=0.0, profile="C01", blocking=0.25),
@@ -91,12 +106,14 @@ PROPS = {
     "C06": dict(mc=["tcp_oneway_inj", "btcp_inj", "ux_twoway"], dev=[("tcp_dev_epipe", "C06_DrainFirst", "epipe_closes")],
                 paths=["tcp_oneway_inj", "btcp_inj"], tps=["tcp", "btcp", "ux", "uxf", "tcp", "tls", "btls", "utls"], raw=0.25, profile="C06"),
     "C07": dict(mc=["tcp_hostile"], paths=["tcp_hostile"], tps=["tcp"], raw=1.0, profile="default"),
-    "C16": dict(mc=["tcp_cond", "ux_twoway", "btcp_oneway"], paths=["tcp_cond"], tps=["tcp", "btcp", "ux", "uxf"], raw=0.0, profile="C16"),
+    "C16": dict(mc=["tcp_cond", "ux_twoway", "btcp_oneway"], paths=["tcp_cond"], mc_quick=["tcp_cond_q", "ux_twoway", "btcp_oneway"],
+                paths_quick=["tcp_cond_q"], tps=["tcp", "btcp", "ux", "uxf", "tls", "utlst", "utls"], raw=0.0, profile="C16", tlsready=True),
     "C17": dict(mc=["tcp_oneway", "ux_oneway", "btcp_oneway", "tcp_twoway"], paths=["tcp_oneway", "ux_oneway", "btcp_oneway"],
                 tps=["tcp", "ux", "btcp", "uxf", "tls", "btls", "utls", "utlst"], raw=0.0, profile="C17", blocking=0.15),
     "C04": dict(mc=["tcp_cond", "tcp_twoway", "ux_twoway"], paths=["tcp_cond"], mc_quick=["tcp_cond_q", "tcp_twoway"], paths_quick=["tcp_cond_q"],
                 tps=["tcp", "btcp", "ux", "uxf", "tls", "btls", "utls", "utlst"], raw=0.0, profile="C04", blocking=0.25, loop=0.45,
-                live=["live_tcp", "live_tcp_close", "live_btcp", "live_btcp_close", "live_ux", "live_ux_close"], live_broken=["no_pollout", "in_or_out"]),
+                live=["live_tcp", "live_tcp_close", "live_btcp", "live_btcp_close", "live_ux", "live_ux_close"], live_broken=["no_pollout", "in_or_out"],
+                tlsready=True),
     "C05": dict(mc=["tcp_oneway"], paths=["tcp_oneway"], tps=["tcp", "btcp", "ux", "uxf", "tls", "btls", "utls", "utlst"], raw=0.1,
                 profile="C05", loop=0.2),
 }
@@ -264,6 +281,19 @@ def check(pid, tier, seed, only_random=False, extra=None):
             violations.append(("design", "TLC: %s violated in liveness configuration %s" % (",".join(r["violated"]), name), rp))
         if r["distinct"] < 50:
             raise InternalError("liveness configuration %s explored only %d states (vacuous)" % (name, r["distinct"]))
+    if spec.get("tlsready"):
+        for framed, broken in [("TRUE", "none"), ("FALSE", "none"), ("TRUE", "no_pending"), ("FALSE", "no_pending"), ("TRUE", "no_idle_bell")]:
+            r = run_tlsready(framed, broken)
+            name = "XcmTlsReady/%s/%s" % ("tls" if framed == "TRUE" else "btls", broken)
+            mc_summary[name] = dict(distinct=r["distinct"], generated=r["generated"], violated=r["violated"])
+            if broken == "none":
+                states += r["distinct"]
+                transitions += r["generated"]
+                if r["violated"]:
+                    rp = vlib.save_replay(pid, "tlc_tlsready_%s.txt" % framed, r["out"][-20000:])
+                    violations.append(("design", "TLC: %s violated in %s" % (",".join(r["violated"]), name), rp))
+            elif not r["violated"]:
+                raise InternalError("the broken design %s is accepted (vacuous properties)" % name)
     for broken in spec.get("live_broken", []):
         # vacuity guard: a deliberately broken design must be rejected by the same properties
         r = run_live(spec["live"][0], broken)
